@@ -1203,6 +1203,14 @@ func main() {
 	writeIfChanged(filepath.Join(*out, "GenWaitSites.v"), w.Bytes())
 	fmt.Printf("go2v: GenWaitSites.v %d wait sites in %d functions\n", nw, nf)
 
+	// GenFrameSites.v (C01): NewFrame call sites, FramePool implementations (framesites.go)
+	w.Reset()
+	fmt.Fprintf(&w, header, *repo)
+	fmt.Fprintf(&w, "From Verif Require Import Gen.GenConsts.\n\n")
+	nfs, nfp := frameSitesSafe(&w, *repo, root)
+	writeIfChanged(filepath.Join(*out, "GenFrameSites.v"), w.Bytes())
+	fmt.Printf("go2v: GenFrameSites.v %d NewFrame sites, %d FramePool implementations\n", nfs, nfp)
+
 	// GenTypedBuf.v, GenMessages.v ...: byte-buffer methods and message codecs (methods.go)
 	emitMethodFiles(all, *repo, *out)
 }
